@@ -1,7 +1,8 @@
 (* C07 — identifiers bind to the innermost preceding declaration in scope.
    Only statements, each closed by a lemma of ScopeProofs.v, with the axioms it rests on. *)
 From Coq Require Import List Arith.
-From Utap Require Import Scope ScopeProofs.
+From Coq Require Import ZArith.
+From Utap Require Import Scope ScopeProofs DotModel DotProofs.
 Import ListNotations.
 
 (* For every text (any nesting of scopes, any number of declarations and uses, names redeclared at any level and within a
@@ -24,6 +25,38 @@ Print Assumptions C07_unknown_iff_undeclared.
 Theorem C07_frames_balanced : forall its : list item, length (snd (walk (size its) its [empty_frame])) = 1.
 Proof. exact walk_balanced. Qed.
 Print Assumptions C07_frames_balanced.
+
+(* ---- process-qualified names (expr_dot on a process) ----
+   P.x selects a member of the frame of P's template only (first symbol of that name; never a global), a location reads as bool,
+   and any other member gets its declared type with the template's scalar-set label renamed to the process and the arguments of
+   the whole instantiation chain substituted *)
+Theorem C07_qualified_member : forall (p : proc) x i t, dot p x = Some (i, t) ->
+  exists t0, nth_error (p_frame p) i = Some (x, t0) /\ (forall j b, j < i -> nth_error (p_frame p) j = Some b -> fst b <> x) /\
+             t = if is_loc t0 then TBool else subst_all (p_map p) (trename (p_templ p) (p_id p) t0).
+Proof. exact dot_sound. Qed.
+Print Assumptions C07_qualified_member.
+Theorem C07_qualified_only_template_members : forall (p : proc) x, dot p x = None <-> ~ In x (map fst (p_frame p)).
+Proof. exact dot_none_iff. Qed.
+Print Assumptions C07_qualified_only_template_members.
+(* it is the declaration an unqualified x resolves to inside the template's own frame (the frame and its name-to-last-index map of
+   Scope.v), whenever the frame declares no name twice *)
+Theorem C07_qualified_is_the_template_declaration : forall (f : frame) (ds : list (name * did)) x,
+  rep f ds -> NoDup (map fst ds) -> first_member (f_syms f) x = frame_lookup f x.
+Proof. exact qualified_is_unqualified. Qed.
+Print Assumptions C07_qualified_is_the_template_declaration.
+(* "with P's arguments substituted": under any meaning of literals and operators, each bound of the type of P.x denotes what the
+   declared bound denotes once every parameter of the instantiation chain has the value of its argument *)
+Theorem C07_qualified_arguments_substituted : forall (p : proc) x i t t0,
+  dot p x = Some (i, t) -> nth_error (p_frame p) i = Some (x, t0) -> is_loc t0 = false ->
+  exists bs', bounds_of t = bs' /\ length bs' = length (bounds_of t0) /\
+    forall V lit opsem r k b b', nth_error (bounds_of t0) k = Some b -> nth_error bs' k = Some b' ->
+      beval V lit opsem r b' = beval V lit opsem (env_of V lit opsem (p_map p) r) b.
+Proof. exact dot_bound_meaning. Qed.
+Print Assumptions C07_qualified_arguments_substituted.
+(* and no parameter survives when the arguments are applied innermost template first *)
+Theorem C07_qualified_no_parameter_left : forall m b, triangular m -> (forall y, In y (fv b) -> In y (map fst m)) -> fv (bsubst_all m b) = [].
+Proof. exact bsubst_all_closed. Qed.
+Print Assumptions C07_qualified_no_parameter_left.
 
 Example C07_example :
   (* a; use a; { use a; a'; use a; { use a; use b } } use a; a''; use a   with a global b declared last *)
